@@ -97,7 +97,9 @@ FAMILIES = {
              'BoolToInt': ((B,), lambda a: ast.ByteToInt(ast.BoolToByte(a)), False),
              'IntToBool': (('I_nolit',), lambda a: ast.IntToBool(a), False),
              'ByteToBool': ((Y,), lambda a: ast.IntToBool(ast.ByteToInt(a)), False),
-             'IntToByteToInt': ((I,), lambda a: ast.ByteToInt(ast.IntToByte(a)), False)},
+             'IntToByteToInt': ((I,), lambda a: ast.ByteToInt(ast.IntToByte(a)), False),
+             'IntToByteToBool': (('I_nolit',), lambda a: ast.IntToBool(ast.ByteToInt(ast.IntToByte(a))), False),
+             'BoolToIntToBool': ((B,), lambda a: ast.IntToBool(ast.ByteToInt(ast.BoolToByte(a))), False)},
     'logic': {'And': ((B, B), lambda a, b: ast.And(None, a, b), False),
               'Or': ((B, B), lambda a, b: ast.Or(None, a, b), False),
               'NotAnd': ((B, B), lambda a, b: ast.Not(None, ast.And(None, a, b)), False),
@@ -146,8 +148,105 @@ def run_family(family, op, w, unchecked, tier):
     return res
 
 
+def concrete_expression_classes():
+    """inventory by introspection of the real package (DESIGN Appendix E)"""
+    import inspect
+    from hidc import ast as A
+    out = []
+    for name in dir(A):
+        c = getattr(A, name)
+        if inspect.isclass(c) and issubclass(c, A.Expression) and not inspect.isabstract(c) and not getattr(c, '__abstractmethods__', None):
+            out.append(c)
+    return sorted(set(out), key=lambda c: c.__name__)
+
+
+def representative(L, cls):
+    """an instance of the expression class whose sub-expressions are abstract children (so that anything they do is visible)"""
+    from hidv.harness.vcg import SPAN
+    from hidc.ast import ArrayType
+    from hidc.codegen.symbols import AccessMode
+    from hidc.lexer.tokens import Ident
+    A = ast
+    o = lambda n, t=I: L.opaque(n, t)
+    if cls in (A.Add, A.Sub, A.Mul, A.Div, A.Mod): return cls(SPAN, o('a'), o('b'))
+    if cls in (A.Lt, A.Le, A.Gt, A.Ge, A.Eq, A.Ne): return cls(SPAN, o('a'), o('b'))
+    if cls in (A.And, A.Or): return cls(SPAN, o('a', B), o('b', B))
+    if cls is A.Not: return cls(SPAN, o('a', B))
+    if cls in (A.Pos, A.Neg): return cls(SPAN, o('a'))
+    if cls is A.Speculation: return cls(SPAN, o('a'), o('b'))
+    if cls is A.IntToByte: return cls(o('a'))
+    if cls is A.ByteToInt: return cls(o('a', Y))
+    if cls is A.IntToBool: return cls(o('a'))
+    if cls is A.BoolToByte: return cls(o('a', B))
+    if cls is A.StringToByteArray: return cls(L.string_operand('s', 'opaque'))
+    if cls is A.LengthLookup: return cls(L.string_operand('s', 'opaque'), SPAN.end)
+    if cls is A.ArrayLookup: return cls(L.array_var('v', I, 'local', AccessMode.RW), o('i'), SPAN.end)
+    if cls is A.IntValue: return L.literal('k')
+    if cls is A.ByteValue: return L.literal('k', Y)
+    if cls is A.BoolValue: return A.BoolValue(True, SPAN)
+    if cls is A.StringValue: return L.string_operand('s', 'literal')
+    if cls is A.VariableLookup: return L.glob('g')
+    if cls is A.ArrayLiteral: return A.ArrayLiteral((o('a'),), SPAN, ArrayType(I, False), True)
+    if cls is A.ArrayInitializer: return A.ArrayInitializer(ArrayType(I, False), o('n'))
+    if cls is A.Volatile: return cls(L.array_var('v', I, 'local', AccessMode.RW))
+    if cls is A.FuncCall: return A.FuncCall(Ident('writeln'), (), SPAN, DataType.EMPTY)
+    return None
+
+
+def run_safe_contract(w):
+    """L(is_safe): for every expression class the real is_safe() accepts, the code of get_expr_value(r, e) writes only r: no child runs,
+    no event, no store, every other named word unchanged.  (is_safe decides whether an already computed left operand may stay in a register.)"""
+    import time as _t
+    import z3
+    from hidv import smt
+    from hidc.codegen import asm as _asm
+    from hidv.harness.lemma import FAILED as _F, DISCHARGED as _D, UNDECIDED as _U
+    res = []
+    never_generated = {'Is', 'Parameter', 'PrimitiveValue', 'TypeCast', 'Expression', 'Assignable', 'Operator', 'Binary', 'Unary', 'BooleanOp', 'LogicalOp', 'CompareOp',
+                       'EqualityOp', 'ArithmeticOp', 'BinaryArithmeticOp', 'UnaryArithmeticOp'}
+    for cls in concrete_expression_classes():
+        if cls.__name__ in never_generated:
+            continue
+        for r_out in ('r0', 'r1', 'r2'):
+            L = Lemma(f'expr/is_safe/{cls.__name__}/{r_out}/w{w}', w, False, src=None)
+            L.functions.update(['hidc.codegen.generator.CodeGen.is_safe', 'hidc.codegen.generator.CodeGen.get_expr_value', 'hidc.codegen.generator.CodeGen.eval_expr'])
+            t0 = _t.time()
+            try:
+                e = representative(L, cls)
+                if e is None:
+                    L.add('SAFE-CONTRACT', _U, t0, ('C01',), {'message': f'no representative for expression class {cls.__name__} (new class? add a lemma)'})
+                    res += L.results; continue
+                safe = L.cg.is_safe(e)
+                if not safe:
+                    L.add('SAFE-CONTRACT', _D, t0, ('C01', 'C09'), {'formula': f'{cls.__name__}: not treated as safe (left operands are kept across it)'}, backend='harness')
+                    res += L.results; continue
+                out = L.guarded_emit(lambda: L.cg.get_expr_value(_asm.LabelRef(r_out), e))
+                if out is None:
+                    res += L.results; continue
+                instrs, lines, val = out; L.lines = lines
+                eng, leaves = L.run_engine(lines)
+                problems = []
+                E = L.entry.regs
+                for l in leaves:
+                    if l.kind != 'exit': problems.append(f'leaf {l.kind} {l.tgt}')
+                    if l.st.trace: problems.append('evaluating it runs a child / emits an event')
+                    if l.st.stores: problems.append('evaluating it stores to memory')
+                    for r in E:
+                        if r != r_out and not smt.prove(L.ctx.all_pre() + list(l.cond), l.st.regs[r] == E[r]).verdict == smt.PROVED:
+                            problems.append(f'evaluating it changes {r}')
+                L.add('SAFE-CONTRACT', _F if problems else _D, t0, ('C01', 'C09'),
+                      {'formula': f'is_safe accepts {cls.__name__}: its code writes only {r_out} (no child, event, store; other named words unchanged)',
+                       'message': '; '.join(sorted(set(problems)))})
+            finally:
+                L.close()
+            res += L.results
+    return res
+
+
 def tasks(tier):
     out = []
+    for w in WIDTHS[tier]:
+        out.append(task(MOD, 'run_safe_contract', ('C01', 'C09', 'C10'), label=f'expr/is_safe/w{w}', cost=5, w=w))
     for w in WIDTHS[tier]:
         for unchecked in (False, True):
             for family, ops in FAMILIES.items():
